@@ -10,8 +10,16 @@ prop("C03", True, "A",
      "Every history of the bounded space is executed on three real tracker instances; each is compared with the model (continuation of unexpired tracks only, exact wasted set delivered once, idle set, epochs, conservation through the shard statistics, every held track in exactly one store) and the three transcripts must be identical.",
      "Trusted: the reference model (engine/src/props/c03.rs). Identical / disjoint boxes make association unambiguous. Sequential use under the default schedule.",
      "7/C03")
-prop("C04", False, "A", "", "", NB, "7/C04")
-prop("C05", False, "A+B", "", "", NB, "7/C05")
+prop("C04", True, "A",
+     "exhaustive enumeration of all multi-scene call histories up to depth 4 (5 thorough) over 3 scenes x 7 tie-free detection lists on the real trackers, with a differential oracle: interleaved run versus a fresh tracker fed each scene's projection",
+     'Every history of the bounded space is executed interleaved and per scene on real trackers (4 kinds x 2 metrics); per scene the records must be bit-identical up to an incrementally built id bijection and no track id may appear in two scenes.',
+     "Trusted: nothing beyond the harness (no hand-written expectation). Tie-free inputs only; sequential use under the default schedule; scene symmetry is used to fix the first call's scene.",
+     "7/C04")
+prop("C05", True, "A+B",
+     '(1) exhaustive enumeration of call histories for shard counts 2..8 against the 1-shard transcript; (2) stateless exhaustive exploration of all interleavings of the real store workers and the caller at command granularity during each call (all schedules for 2 shards, preemption bound 2/3 for 3 shards, plus a one-deviation fine tier at every synchronisation operation) under a controlled scheduler',
+     'Records (ids included) and the canonical store dump after every call must equal the 1-shard default-schedule reference in every explored schedule; windows (one call each) are joined by that checked state equality; the number of distinct worker orders is reported as vacuity guard.',
+     'Trusted: shuttle facade / channel shim (hooks H1-H3). Preemptions inside lock-protected sections beyond the fine tier are not explored; more than 3 shards only under the default schedule.',
+     "7/C05")
 prop("C06", False, "B", "", "", NB, "7/C06")
 prop("C07", True, "A+C",
      "exhaustive enumeration of all step words (predict / update with 6 kinds of measurement) up to a depth and of all periodic words of length <= 4 unrolled to 300 steps on the real filters, each step compared with an f64 textbook step from the implementation's own pre-state; complete f32 bit-pattern sweep of the cost conversions",
